@@ -62,6 +62,18 @@ Proof.
     rewrite Hop in Hstep; symmetry; eapply refusal_keeps_state_aux; eauto; rewrite Hout; reflexivity.
 Qed.
 
+Lemma other_method_needs_secret ops h s : exec H cf ops = (h, s) ->
+  forall h1 e h2 pl cr n scopes t r cl,
+    h = h1 ++ e :: h2 -> e_op e = TokenRefresh pl cr (Some n) scopes -> e_out e = OTokens t ->
+    find_rt (e_pre e) n = Some r -> find_client cf (r_client r) = Some cl -> c_auth cl = AM_Other ->
+    cr_assert cr = None /\ cred_id_sec cr = (r_client r, c_secret cl).
+Proof.
+  intros Hex h1 e h2 pl cr n scopes t r cl Heq Hop Hout Hrt Hf Ha.
+  destruct (bound ops h s Hex h1 e h2 pl cr (Some n) scopes t Heq Hop Hout)
+    as [n' [r' [[= <-] [Hrt' [Hp _]]]]]. rewrite Hrt in Hrt'. injection Hrt' as <-.
+  eapply cred_proves_other; eauto.
+Qed.
+
 (* every refresh step factors through finish_refresh, independently of the scope parameter *)
 Lemma read_field_some pl (n d : nat) : form_last (place_field pl n d) = Some n.
 Proof. destruct pl; reflexivity. Qed.
@@ -237,6 +249,30 @@ Proof.
   apply trans_refresh_inv in Hstep as [n' [r [c [sc' [[= <-] [Hrt _]]]]]]. congruence.
 Qed.
 
+(* a token the storage revoked or let expire fails for good - whatever the storage's policy, and
+   whatever the storage hands back next to its refusal *)
+Lemma revoked_refused ops h s : exec H cf ops = (h, s) ->
+  forall h1 e1 h2 e2 h3 n pl cr sc,
+    h = h1 ++ e1 :: h2 ++ e2 :: h3 ->
+    e_op e1 = RevokeRT n -> n <= next (e_pre e1) ->
+    e_op e2 = TokenRefresh pl cr (Some n) sc ->
+    is_tokens (e_out e2) = false /\ e_post e2 = e_pre e2.
+Proof.
+  intros Hex h1 e1 h2 e2 h3 n pl cr sc Heq Ho1 Hle Ho2.
+  apply exec_reach in Hex.
+  assert (Heq' : h = (h1 ++ e1 :: h2) ++ e2 :: h3) by (rewrite Heq, <- app_assoc; reflexivity).
+  destruct (reach_split H cf h s Hex _ e2 h3 Heq') as [Hr Hstep].
+  assert (Hd1 : e_out e1 = ODone).
+  { destruct (reach_split H cf h s Hex h1 e1 (h2 ++ e2 :: h3) Heq) as [_ Hs1]. rewrite Ho1 in Hs1.
+    cbn [step] in Hs1. now injection Hs1 as _ <-. }
+  apply reach_inv in Hr. apply step_trans in Hstep. rewrite Ho2 in Hstep.
+  assert (Hin1 : In e1 (h1 ++ e1 :: h2)) by (apply in_app_iff; right; now left).
+  destruct (i_dead _ _ _ Hr e1 n Hin1 Ho1 Hd1 Hle) as [_ Hnone].
+  destruct (e_out e2) as [| | | | |t2| | | |] eqn:Hout;
+    try (split; [reflexivity | eapply trans_refresh_refused; eauto]).
+  apply trans_refresh_inv in Hstep as [n' [r [c [sc' [[= <-] [Hrt _]]]]]]. congruence.
+Qed.
+
 End T.
 
 (* ---- non-vacuity: the example history of C04_proofs contains a chain of two refreshes
@@ -278,7 +314,9 @@ Definition ex_ops_keep : list (router * op) :=
     (Legacy, TokenRefresh P_body (Basic "web" "s3cret") (Some 2) ["openid"; "email"]);
     (Provider, TokenRefresh P_body (Basic "web" "s3cret") (Some 2) ["openid"; "offline_access"]);   (* no longer granted *)
     (Provider, TokenRefresh P_body (Basic "web" "s3cret") (Some 2) ["openid"]);
-    (Legacy, TokenRefresh P_body (Post "spa" "") (Some 2) []) ].                                    (* other client *)
+    (Legacy, TokenRefresh P_body (Post "spa" "") (Some 2) []);                                      (* other client *)
+    (Legacy, RevokeRT 2);                                                                          (* the storage revokes it *)
+    (Provider, TokenRefresh P_body (Basic "web" "s3cret") (Some 2) []) ].
 
 Example keep_nonvacuous :
   map (fun x => match x with OTokens t => (t_rt t, t_scope t) | _ => (None, []) end) (outs ex_H ex_cfg_keep ex_ops_keep)
@@ -287,7 +325,8 @@ Example keep_nonvacuous :
       (Some 2, ["openid"; "email"]);
       (None, []);
       (Some 2, ["openid"]);
-      (None, []) ]
+      (None, []); (None, []); (None, []) ]
   /\ nth_error (outs ex_H ex_cfg_keep ex_ops_keep) 5 = Some (OErr 4 E_scope)
-  /\ nth_error (outs ex_H ex_cfg_keep ex_ops_keep) 7 = Some (OErr 4 E_grant).
+  /\ nth_error (outs ex_H ex_cfg_keep ex_ops_keep) 7 = Some (OErr 4 E_grant)
+  /\ nth_error (outs ex_H ex_cfg_keep ex_ops_keep) 9 = Some (OErr 4 E_grant).
 Proof. vm_compute. repeat split. Qed.
